@@ -234,6 +234,17 @@ func (ex *Explorer) Run() {
 	ex.FuncInstr = map[string]int{}
 	ex.Stubs = map[string]int{}
 	ex.frontier = [][]int32{{}}
+	if op := os.Getenv("GOSMT_ONLYPATH"); op != "" {
+		var pre []int32
+		for _, f := range strings.FieldsFunc(op, func(r rune) bool { return r == ',' || r == ' ' || r == '[' || r == ']' }) {
+			var v int
+			fmt.Sscan(f, &v)
+			pre = append(pre, int32(v))
+		}
+		ex.frontier = [][]int32{pre}
+		ex.Cfg.MaxPaths = 1
+		ex.Cfg.Workers = 1
+	}
 	n := ex.Cfg.Workers
 	if n < 1 {
 		n = 1
